@@ -1,8 +1,8 @@
 /-
   C03 — fixtures and hooks: set up before use, torn down exactly once after last use.
 
-  Part 1 (task level), for EVERY valid project, every worker count and every interleaving of a run that
-  is not interrupted: the suite teardown task (which tears down the suite-scoped fixtures and calls
+  Part 1 (task level), for EVERY valid project, every worker count and every interleaving of a run, a
+  keyboard interrupt at any moment included: the suite teardown task (which tears down the suite-scoped fixtures and calls
   `teardown_suite`) starts only after the suite setup task and every test of the suite have finished; the
   suite ends only after its teardown and its sub-suites ended; the session teardown task (session-scoped
   fixtures) starts only after every top-level suite has ended; a test starts only after the setup of its
@@ -11,7 +11,9 @@
   `scheduled_deps_before`.  What happens inside one task (setup loop stops at the first failure and keeps
   exactly the teardowns of the completed setups; teardown loop reversed and exception-proof) is in
   `Props/C03Run.lean`.
-  The interrupt path is excluded on purpose: with ≥ 2 workers it tears down under running tests (finding D11).
+  The interrupt path is included: `skip_all_tasks` (as repaired by fix D11) releases the teardown / suite-end /
+  session-teardown tasks only when the tasks they depend on are completed, so no teardown runs under a test
+  that is still in flight.
 -/
 import LccModel.Props.C01Graph
 
@@ -21,33 +23,31 @@ open LccModel.Run LccModel.Sched LccModel.TaskGraph LccModel.C01Graph
 /-- The suite teardown starts after the suite setup task and after every test of the suite has finished. -/
 theorem suite_teardown_after_setup_and_tests {P : Proj} (hv : Valid P) {sv : SuiteView}
     (hsv : sv ∈ allSuites P) (hinit : hasInit P sv = true)
-    (n : Nat) (s : State TaskId) (hr : Reachable (graphOf P) n s) (hna : s.aborted = false)
+    (n : Nat) (s : State TaskId) (hr : Reachable (graphOf P) n s)
     (i : Nat) (hi : s.startAt ⟨.teardown, sv.path⟩ = some i) :
     (∃ j, s.finishAt ⟨.init, sv.path⟩ = some j ∧ j < i) ∧
     ∀ t ∈ sv.spec.tests, ∃ j, s.finishAt ⟨.test, sv.path ++ [t.name]⟩ = some j ∧ j < i := by
-  have hnf := forced_false_of_not_aborted hr hna
   have hdeps := (teardown_waits_for_tests_and_setup hv hsv hinit).1
   constructor
-  · apply C04.deps_finished_before_start (graphOf P) n s hr _ i hi (hnf _)
+  · apply C04.deps_finished_before_start (graphOf P) n s hr _ i hi
     apply complDeps_sub_deps; rw [hdeps]; exact List.mem_cons_self
   · intro t ht
-    apply C04.deps_finished_before_start (graphOf P) n s hr _ i hi (hnf _)
+    apply C04.deps_finished_before_start (graphOf P) n s hr _ i hi
     apply complDeps_sub_deps; rw [hdeps]
     exact List.mem_cons_of_mem _ (List.mem_map.mpr ⟨t, ht, rfl⟩)
 
 /-- A suite is ended only after it was begun, all its tests finished, its teardown (if any) finished and
     every direct sub-suite ended. -/
 theorem suite_end_after_everything_inside {P : Proj} (hv : Valid P) {sv : SuiteView} (hsv : sv ∈ allSuites P)
-    (n : Nat) (s : State TaskId) (hr : Reachable (graphOf P) n s) (hna : s.aborted = false)
+    (n : Nat) (s : State TaskId) (hr : Reachable (graphOf P) n s)
     (i : Nat) (hi : s.startAt ⟨.end_, sv.path⟩ = some i) :
     (∃ j, s.finishAt ⟨.begin, sv.path⟩ = some j ∧ j < i) ∧
     (∀ t ∈ sv.spec.tests, ∃ j, s.finishAt ⟨.test, sv.path ++ [t.name]⟩ = some j ∧ j < i) ∧
     (hasInit P sv = true → ∃ j, s.finishAt ⟨.teardown, sv.path⟩ = some j ∧ j < i) ∧
     (∀ sub ∈ sv.spec.subs, ∃ j, s.finishAt ⟨.end_, sv.path ++ [sub.name]⟩ = some j ∧ j < i) := by
-  have hnf := forced_false_of_not_aborted hr hna
   have hdeps := (end_waits_for_children hv hsv).1
   have key : ∀ d, d ∈ (graphOf P).succDeps ⟨.end_, sv.path⟩ → ∃ j, s.finishAt d = some j ∧ j < i :=
-    fun d hd => C04.deps_finished_before_start (graphOf P) n s hr _ i hi (hnf _) d (succDeps_sub_deps _ _ _ hd)
+    fun d hd => C04.deps_finished_before_start (graphOf P) n s hr _ i hi d (succDeps_sub_deps _ _ _ hd)
   rw [hdeps] at key
   refine ⟨key _ (by simp), ?_, ?_, ?_⟩
   · intro t ht
@@ -65,14 +65,59 @@ theorem suite_end_after_everything_inside {P : Proj} (hv : Valid P) {sv : SuiteV
 /-- The session teardown (session-scoped fixtures) starts only after every top-level suite has ended — hence,
     by the previous theorem applied down the tree, after every test of the run and every suite teardown. -/
 theorem session_teardown_after_all_suites {P : Proj} (hv : Valid P) (hs : hasSessSetup P = true)
-    (n : Nat) (s : State TaskId) (hr : Reachable (graphOf P) n s) (hna : s.aborted = false)
+    (n : Nat) (s : State TaskId) (hr : Reachable (graphOf P) n s)
     (i : Nat) (hi : s.startAt ⟨.sessTeardown, []⟩ = some i) :
     ∀ top ∈ P.suites, ∃ j, s.finishAt ⟨.end_, [top.name]⟩ = some j ∧ j < i := by
-  have hnf := forced_false_of_not_aborted hr hna
   have hdeps := (session_teardown_waits_for_top_ends hv hs).1
   intro top htop
-  apply C04.deps_finished_before_start (graphOf P) n s hr _ i hi (hnf _)
+  apply C04.deps_finished_before_start (graphOf P) n s hr _ i hi
   apply complDeps_sub_deps; rw [hdeps]
   exact List.mem_map.mpr ⟨top, htop, rfl⟩
+
+/-! ### Non-vacuity, on an INTERRUPTED run
+
+    `C01Graph.sampleProj` with 2 workers: the keyboard interrupt arrives while the setup task of suite `a` and the
+    beginning task of `a.b` are running.  Everything else is force-skipped — in dependency order: the teardown of
+    `a` starts (clock 22) after its setup (finished at 9) and its tests `t1`, `t2` (17, 20); `a` ends (start 34)
+    after its teardown (23) and its sub-suites (26, 32); the session teardown starts (46) after both top-level
+    suites ended (35, 44).  The hypotheses of the three theorems hold in the final state of this run. -/
+def interruptedRun : List (Label TaskId) :=
+  [.start ⟨.sessSetup, []⟩ false, .finish ⟨.sessSetup, []⟩ .success, .receive ⟨.sessSetup, []⟩,
+   .start ⟨.begin, ["a"]⟩ false, .finish ⟨.begin, ["a"]⟩ .success, .receive ⟨.begin, ["a"]⟩,
+   .start ⟨.init, ["a"]⟩ false, .start ⟨.begin, ["a", "b"]⟩ false, .interrupt,
+   .finish ⟨.init, ["a"]⟩ .success, .receive ⟨.init, ["a"]⟩,
+   .finish ⟨.begin, ["a", "b"]⟩ .success, .receive ⟨.begin, ["a", "b"]⟩,
+   .start ⟨.test, ["a", "b", "u1"]⟩ true, .finish ⟨.test, ["a", "b", "u1"]⟩ .skipped, .receive ⟨.test, ["a", "b", "u1"]⟩,
+   .start ⟨.test, ["a", "t1"]⟩ true, .finish ⟨.test, ["a", "t1"]⟩ .skipped, .receive ⟨.test, ["a", "t1"]⟩,
+   .start ⟨.test, ["a", "t2"]⟩ true, .finish ⟨.test, ["a", "t2"]⟩ .skipped, .receive ⟨.test, ["a", "t2"]⟩,
+   .start ⟨.teardown, ["a"]⟩ true, .finish ⟨.teardown, ["a"]⟩ .skipped, .receive ⟨.teardown, ["a"]⟩,
+   .start ⟨.end_, ["a", "b"]⟩ true, .finish ⟨.end_, ["a", "b"]⟩ .skipped, .receive ⟨.end_, ["a", "b"]⟩,
+   .start ⟨.begin, ["a", "empty"]⟩ true, .finish ⟨.begin, ["a", "empty"]⟩ .skipped, .receive ⟨.begin, ["a", "empty"]⟩,
+   .start ⟨.end_, ["a", "empty"]⟩ true, .finish ⟨.end_, ["a", "empty"]⟩ .skipped, .receive ⟨.end_, ["a", "empty"]⟩,
+   .start ⟨.end_, ["a"]⟩ true, .finish ⟨.end_, ["a"]⟩ .skipped, .receive ⟨.end_, ["a"]⟩,
+   .start ⟨.begin, ["c"]⟩ true, .finish ⟨.begin, ["c"]⟩ .skipped, .receive ⟨.begin, ["c"]⟩,
+   .start ⟨.test, ["c", "t1"]⟩ true, .finish ⟨.test, ["c", "t1"]⟩ .skipped, .receive ⟨.test, ["c", "t1"]⟩,
+   .start ⟨.end_, ["c"]⟩ true, .finish ⟨.end_, ["c"]⟩ .skipped, .receive ⟨.end_, ["c"]⟩,
+   .start ⟨.sessTeardown, []⟩ true, .finish ⟨.sessTeardown, []⟩ .skipped, .receive ⟨.sessTeardown, []⟩]
+
+/-- the run is accepted, interrupted, complete; the teardown of `a` was force-skipped … -/
+example : ((run (graphOf sampleProj) 2 (init (graphOf sampleProj) 2) interruptedRun).map
+    (fun s => (s.aborted, finalB (graphOf sampleProj) s, s.forced ⟨.teardown, ["a"]⟩, s.mode ⟨.teardown, ["a"]⟩)))
+    = some (true, true, true, some .skip) := by decide +kernel
+
+/-- … after the setup and the tests of `a` (`suite_teardown_after_setup_and_tests`) -/
+example : ((run (graphOf sampleProj) 2 (init (graphOf sampleProj) 2) interruptedRun).map
+    (fun s => (s.finishAt ⟨.init, ["a"]⟩, s.finishAt ⟨.test, ["a", "t1"]⟩, s.finishAt ⟨.test, ["a", "t2"]⟩,
+               s.startAt ⟨.teardown, ["a"]⟩))) = some (some 9, some 17, some 20, some 22) := by decide +kernel
+
+/-- `suite_end_after_everything_inside` for `a` -/
+example : ((run (graphOf sampleProj) 2 (init (graphOf sampleProj) 2) interruptedRun).map
+    (fun s => (s.finishAt ⟨.teardown, ["a"]⟩, s.finishAt ⟨.end_, ["a", "b"]⟩, s.finishAt ⟨.end_, ["a", "empty"]⟩,
+               s.startAt ⟨.end_, ["a"]⟩))) = some (some 23, some 26, some 32, some 34) := by decide +kernel
+
+/-- `session_teardown_after_all_suites` -/
+example : ((run (graphOf sampleProj) 2 (init (graphOf sampleProj) 2) interruptedRun).map
+    (fun s => (s.finishAt ⟨.end_, ["a"]⟩, s.finishAt ⟨.end_, ["c"]⟩, s.startAt ⟨.sessTeardown, []⟩)))
+    = some (some 35, some 44, some 46) := by decide +kernel
 
 end LccModel.C03
